@@ -66,12 +66,18 @@ type c07Params struct {
 	// BFinal: the peers end every compressed message with a final deflate block whose
 	// trailing byte travels in a last frame of its own (RFC 7692 7.2.3.4)
 	BFinal bool
-	Prop   string // "" = C07; "C05": the pool invariant reported under C05 (a pooled object owned twice is shared, unsynchronised, by two connections)
+	// Prefill: before A and B are opened, a connection P receives its three messages
+	// and is closed, so that A and B start from pools that hold P's objects
+	Prefill bool
+	Prop    string // "" = C07; otherwise the property the same oracle is reported under reported under C05 (a pooled object owned twice is shared, unsynchronised, by two connections)
 }
 
 func (p c07Params) name() string {
 	if p.BFinal {
 		return strings.Join(p.Prog, ",") + "/" + p.K.String() + "+bfinal"
+	}
+	if p.Prefill {
+		return strings.Join(p.Prog, ",") + "/" + p.K.String() + "+prefill"
 	}
 	return strings.Join(p.Prog, ",") + "/" + p.K.String()
 }
@@ -324,6 +330,16 @@ func c07Setup(prm c07Params) func(c *fw.Ctx, name string) explore.Setup {
 			vsync.PoolLogging = true
 			w.GoHarness("main", true, func() {
 				c07BFinalStreams = prm.BFinal
+				if prm.Prefill {
+					x := c07Open(st, prm.K, 'P', 3)
+					for i := 0; i < 3; i++ {
+						if _, r, err := x.c.Reader(vctx.Background()); err == nil {
+							io.Copy(io.Discard, r)
+						}
+					}
+					x.c.CloseNow()
+					delete(st.conns, 'P')
+				}
 				c07Open(st, prm.K, 'A', 3)
 				c07Open(st, prm.K, 'B', 3)
 				for _, op := range prm.Prog {
@@ -344,7 +360,11 @@ func c07Setup(prm c07Params) func(c *fw.Ctx, name string) explore.Setup {
 						violate(c, w, name, prm.Prop+"/panic/prog/"+prm.K.String(), w.Panic)
 						return
 					}
-					c.OutcomeStr(fmt.Sprintf("%s|dead=%v", name, w.Deadlock))
+					c.OutcomeStr(fmt.Sprintf("%s|leaks=%d|dead=%v", name, len(st.leaks), w.Deadlock))
+					if len(st.leaks) > 0 {
+						violate(c, w, name, prm.Prop+"/foreign-bytes/prog/"+prm.K.String(), strings.Join(st.leaks, "\n"))
+						return
+					}
 					if msg := c07PoolInvariant(); msg != "" {
 						violate(c, w, name, prm.Prop+"/pool-double-put/prog/"+prm.K.String(), msg)
 					}
@@ -625,6 +645,21 @@ func c07WSetup(prm c07WParams) func(c *fw.Ctx, name string) explore.Setup {
 	}
 }
 
+// c01PoolScenarios: two connections that start from pools filled by an earlier,
+// closed connection read their (context takeover) messages alternately; every
+// byte read on X is what X's peer sent.
+func c01PoolScenarios(tier string) []scenario {
+	var scs []scenario
+	progs := [][]string{{"A.readAll", "B.readAll", "A.readAll", "B.readAll"}, {"A.readPartial", "B.readAll", "A.readAll", "B.readAll", "A.readAll"}, {"B.readAll", "A.readAll", "A.readAll", "B.readAll"}}
+	for _, k := range []connCfg{{Client: false, Flate: true}, {Client: true, Flate: true}} {
+		for _, pr := range progs {
+			prm := c07Params{K: k, Prog: pr, Prefill: true, Prop: "C01"}
+			scs = append(scs, scenario{Name: "pools/" + prm.name(), Cfg: explore.Config{P: 0, Horizon: 60e9}, Setup: c07Setup(prm), Group: "pools/" + k.String()})
+		}
+	}
+	return scs
+}
+
 // c05PoolScenarios: write-side failures followed by the close of the
 // connection, judged by the pool invariant under C05.
 func c05PoolScenarios(tier string) []scenario {
@@ -708,6 +743,14 @@ func c07Scenarios(tier string) []scenario {
 			// keep programs that touch at least two connections or read again / close
 			prm := c07Params{K: k, Prog: pr}
 			scs = append(scs, scenario{Name: prm.name(), Cfg: explore.Config{P: 0, Horizon: 60e9}, Setup: c07Setup(prm), Group: fmt.Sprintf("prog/%s/%d", k.String(), i%4)})
+			onlyReads := true
+			for _, op := range pr {
+				onlyReads = onlyReads && (strings.HasSuffix(op, ".readAll") || strings.HasSuffix(op, ".readPartial"))
+			}
+			if k.Flate && !k.CNCT && onlyReads {
+				pp := c07Params{K: k, Prog: pr, Prefill: true}
+				scs = append(scs, scenario{Name: pp.name(), Cfg: explore.Config{P: 0, Horizon: 60e9}, Setup: c07Setup(pp), Group: fmt.Sprintf("prog-prefill/%s/%d", k.String(), i%2)})
+			}
 			if k.Flate && (k.Client == k.CNCT || tier == "thorough") {
 				prm.BFinal = true
 				scs = append(scs, scenario{Name: prm.name(), Cfg: explore.Config{P: 0, Horizon: 60e9}, Setup: c07Setup(prm), Group: fmt.Sprintf("prog-bfinal/%s/%d", k.String(), i%4)})
@@ -757,6 +800,10 @@ func init() {
 			Replay: replayFn(scs),
 		})
 	}
+	fw.Register(fw.Part{Prop: "C01", Name: "s.pools",
+		Units:  func(tier string) []fw.Unit { return scenarioUnits(c01PoolScenarios(tier)) },
+		Replay: replayFn(c01PoolScenarios),
+	})
 	fw.Register(fw.Part{Prop: "C05", Name: "s.pool",
 		Units:  func(tier string) []fw.Unit { return scenarioUnits(c05PoolScenarios(tier)) },
 		Replay: replayFn(c05PoolScenarios),
